@@ -956,11 +956,18 @@ impl<R: Reg> Interp<R> {
         let res_or = R::res_snapshot(&s.real);
         let fail = |oracle: &'static str, msg: String| Err(Fail { props: &["C06"], oracle, msg, step });
         if !e1 || !e2 {
-            // keep the world alive until after the message is built, then drop it
-            let r = Err(Fail { props: &["C06", "C16"], oracle: "roundtrip-eq", msg: format!("deserialized == original is {e1}, original == deserialized is {e2} ({enc:?})"), step });
-            talloc::tracked(|| drop(de));
-            return r;
+            let f = Fail { props: &["C06", "C16"], oracle: "roundtrip-eq", msg: format!("deserialized == original is {e1}, original == deserialized is {e2} ({enc:?})"), step };
+            if self.mute && self.prop != "C06" && self.prop != "C16" && !self.muted.contains("roundtrip-eq") {
+                // another property's business: record it and let the copy take part in the rest of
+                // the history (C02 and C01 speak about worlds that went through a round trip)
+                self.muted.insert("roundtrip-eq");
+                self.foreign.push(f);
+            } else {
+                talloc::tracked(|| drop(de));
+                return Err(f);
+            }
         }
+        let s = self.slot(w);
         match (snap_de, snap_or) {
             (Ok(a), Ok(b)) => {
                 if let Some(diff) = snap_diff(&a, &b) {
@@ -1476,7 +1483,11 @@ impl<R: Reg> Interp<R> {
                 let c = R::contains(&s.real, *id);
                 let h = R::has_entry(&mut s.real, *id);
                 if on_resolve && (c != live || h != live || e.is_some() != live) {
-                    return Err(Fail { props: &["C02"], oracle: "resolve", msg: format!("world {w}: identifier {id:?} is {} but contains() = {c}, entry().is_some() = {h}, Entries::entry().is_some() = {}", if live { "live" } else { "stale" }, e.is_some()), step });
+                    // a single-entity query that yields a result for an identifier that is not live
+                    // (or none for a live one) is also C03's "one result per live entity ... and
+                    // nothing else ... the same holds through World::entry and query-time Entries"
+                    let props: &'static [&'static str] = if h != live || e.is_some() != live { &["C02", "C03"] } else { &["C02"] };
+                    return Err(Fail { props, oracle: "resolve", msg: format!("world {w}: identifier {id:?} is {} but contains() = {c}, entry().is_some() = {h}, Entries::entry().is_some() = {}", if live { "live" } else { "stale" }, e.is_some()), step });
                 }
                 if !live {
                     // stale id whose slot is in use again?
